@@ -571,7 +571,7 @@ pub unsafe extern "C" fn waitpid(pid: pid_t, status: *mut c_int, options: c_int)
     if !(active() && pid >= SIM_PID_MIN) {
         return libc::syscall(libc::SYS_wait4, pid, status, options, 0usize) as pid_t;
     }
-    match with_k(|k| k.sys_waitpid(pid)) {
+    match with_k(|k| k.sys_waitpid_opts(pid, options)) {
         Ok((tid, st)) => {
             if !status.is_null() {
                 *status = st;
